@@ -111,7 +111,9 @@ class ZeroFlow:
                 for kk in bool_params(gf):
                     if kk < len(n["args"]):
                         a = n["args"][kk]
-                        if f.cv(a) == 1 or rl.var_of(f, a) in {f.param_id(x) for x in T}:
+                        av = rl.var_of(f, a)
+                        init = rl.single_def(f, av) if av is not None and av not in f.pids else None
+                        if f.cv(a) == 1 or av in {f.param_id(x) for x in T} or (init is not None and f.cv(init) == 1):
                             TG.add(kk)
             if g in BASE:
                 sub = [] if BASE[g] in TG else ["%s: %s is called without the zero flag" % (f.where(j), g)]
